@@ -810,6 +810,73 @@ func runDefaults(c *Ctx) {
 	for _, v := range byCol {
 		c.Stats["DEF column read sites"] += len(v)
 	}
+	// a field that takes a default-bearing column is written from that column only: a later store that overrides
+	// what was decoded ("the text colour equals the route colour, use a contrasting one") also overrides the default
+	{
+		wanted := map[string]bool{}
+		for _, o := range oracle {
+			wanted[o.column] = true
+		}
+		dest := map[string]map[ssa.Value]bool{} // "Type.field" -> values that are what the column decodes to
+		destCol := map[string]string{}
+		note := func(st *ssa.Store, src ssa.Value, col string) {
+			fa, ok := st.Addr.(*ssa.FieldAddr)
+			if !ok {
+				return
+			}
+			k := typeName(fa.X.Type()) + "." + fieldName(fa.X.Type(), fa.Field)
+			if dest[k] == nil {
+				dest[k] = map[ssa.Value]bool{}
+			}
+			dest[k][src] = true
+			destCol[k] = col
+		}
+		for col, sites := range byCol {
+			if !wanted[col] {
+				continue
+			}
+			for _, rs := range sites {
+				if rs.call.Referrers() == nil {
+					continue
+				}
+				for _, r := range *rs.call.Referrers() {
+					switch x := r.(type) {
+					case *ssa.Store:
+						note(x, rs.call, col)
+					case *ssa.BinOp, *ssa.Call:
+						xv := x.(ssa.Value)
+						if xv.Referrers() != nil {
+							for _, r2 := range *xv.Referrers() {
+								if st, ok := r2.(*ssa.Store); ok {
+									note(st, xv, col)
+								}
+							}
+						}
+					}
+				}
+			}
+		}
+		for _, fn := range fns {
+			for _, blk := range fn.Blocks {
+				for _, in := range blk.Instrs {
+					st, ok := in.(*ssa.Store)
+					if !ok {
+						continue
+					}
+					fa, ok := st.Addr.(*ssa.FieldAddr)
+					if !ok {
+						continue
+					}
+					k := typeName(fa.X.Type()) + "." + fieldName(fa.X.Type(), fa.Field)
+					srcs, tracked := dest[k]
+					if !tracked || srcs[st.Val] || k == "gtfs.Stop.WheelchairBoarding" {
+						continue // (the inheritance pass has its own rule)
+					}
+					c.Violated("DEF", shortName(fn), destCol[k]+" [overridden]", p.ipos(st), "the field that takes "+destCol[k]+" ("+k+") is assigned again from something other than the decoded cell: the value the column (or its default) stands for can be replaced")
+				}
+			}
+		}
+	}
 	for _, o := range oracle {
 		sites := byCol[o.column]
 		if len(sites) == 0 {
